@@ -147,6 +147,17 @@ def build(case: dict, d: Path) -> dict:
     elif o == "license_dir_is_file":
         shutil.rmtree(root / "LICENSES")
         (root / "LICENSES").write_text("not a directory\n")
+    elif o in ("template_raises", "template_undefined", "template_garbles_expression"):
+        (root / ".reuse" / "templates").mkdir(parents=True)
+        body = {"template_raises": "{{ 1/0 }}\n{% for x in copyright_lines %}{{ x }}\n{% endfor %}",
+                "template_undefined": "{{ project.owner.name }}\n{% for x in copyright_lines %}{{ x }}\n{% endfor %}",
+                "template_garbles_expression": "{% for x in copyright_lines %}{{ x }}\n{% endfor %}\n"
+                                               "{% for e in spdx_expressions %}SPDX-License-Identifier: {{ e }} AND\n{% endfor %}"}[o]
+        (root / ".reuse" / "templates" / "odd.jinja2").write_text(body)
+        info["template"] = "odd"
+    elif o == "dot_license_is_directory":
+        (root / "src" / "b.py.license").mkdir()
+        info["target"] = "src/b.py"
     elif o == "template_bad_syntax":
         (root / ".reuse" / "templates").mkdir(parents=True)
         (root / ".reuse" / "templates" / "broken.jinja2").write_text("{% for x in copyright_lines %}\n{{ x }\n")
@@ -241,7 +252,8 @@ def run(ctx: core.Ctx) -> int:
               "covered_nul_bytes": "valid", "covered_not_utf8": "valid", "covered_long_line": "valid", "covered_bad_expression": "valid",
               "covered_unreadable": "valid", "covered_vanishes": "valid", "licenseref_not_utf8": "valid", "license_dir_is_file": "grey",
               "template_bad_syntax": "grey", "dot_license_not_utf8": "valid", "licenses_same_identifier": "invalid",
-              "dep5_and_nested_toml": "invalid", "covered_terminator_run": "valid"}
+              "dep5_and_nested_toml": "invalid", "covered_terminator_run": "valid",
+              "template_raises": "grey", "template_undefined": "grey", "template_garbles_expression": "grey", "dot_license_is_directory": "grey"}
     for o, cls in others.items():
         cmds = list(all_cmds) + (["convert-dep5"] if o.startswith("dep5") else [])
         if o in ("covered_unreadable", "covered_vanishes"):
